@@ -1050,6 +1050,8 @@ class Interp:
             return [Arr([Poly.const(i) for i, _ in v.pairs], 1), Arr([Poly.const(j) for _, j in v.pairs], 1)]
         if isinstance(v, (frozenset, set)):
             return [self.unhash(x) for x in v]
+        if isinstance(v, dict):
+            return [self.unhash(x) for x in v]      # iterating a dict yields its keys in insertion order
         if isinstance(v, Arr):
             if v.ndim == 2:
                 return [Arr(list(r), 1) for r in v.data]
@@ -1110,6 +1112,12 @@ class Interp:
         if isinstance(cur, (Pose, Obj)) and op is ast.Add and self.pkg.lookup(cur.cls, "__iadd__"):
             new = self.call_method(cur, "__iadd__", [val])
             self.assign(t, new, env)
+            return
+        if isinstance(cur, list) and op is ast.Add:
+            cur.extend(self.iterate(val, st))         # list += iterable extends the same list object
+            return
+        if isinstance(cur, (tuple, str)) and op is ast.Add and type(val) is type(cur):
+            self.assign(t, cur + val, env)
             return
         elem_of_container = isinstance(t, ast.Subscript) and isinstance(self.ev(t.value, env), (dict, list))
         if isinstance(cur, Arr) and (not isinstance(t, ast.Subscript) or elem_of_container):
@@ -1574,6 +1582,19 @@ class Interp:
             return isinstance(l, bool) and isinstance(r, bool) and l == r
         if isinstance(l, ClassRef) and isinstance(r, ClassRef):
             return l.name == r.name
+        if isinstance(l, (Poly, Quot, Wrapped)) and isinstance(r, (Poly, Quot, Wrapped)):
+            # `is` on two numbers: whether two equal numbers are one object is an accident of the implementation (small-int
+            # cache, where the value came from); unequal numbers are never the same object.  Both outcomes are explored.
+            if isinstance(l, Poly) and isinstance(r, Poly):
+                d = l - r
+                c = d.const_value()
+                if c is not None and c != 0:
+                    return False
+                if c is None and not self.decide_sign(d, {0}, "%s == 0" % d.short(60)):
+                    return False
+            self.ident_counter = getattr(self, "ident_counter", 0) + 1
+            return self.decide_sign(Poly.var("same_number_object#%d" % self.ident_counter), {1},
+                                    "the two equal numbers compared with `is` are the same object")
         return l is r
 
     def equal(self, l, r, node):
@@ -1963,6 +1984,13 @@ class Interp:
                 co.fields["co_varnames"] = tuple(x.arg for x in fdef.args.args)
                 return co
             raise self.unsupported("attribute %s of a function" % a, n)
+        if isinstance(v, Opaque) and v.kind == "builtin" and v.payload[0] == "dict" and a == "fromkeys":
+            def fromkeys(keys, value=None, n=n):
+                d = {}
+                for k_ in self.iterate(keys, n):
+                    d.setdefault(self.hashable(k_, n), value)       # insertion order, first occurrence of every key
+                return d
+            return Opaque("callable", fromkeys)
         if isinstance(v, Opaque):
             if v.kind == "npfunc" and v.payload[0] in ("add", "subtract") and a == "at":
                 return Opaque("ufunc_at", v.payload[0])
@@ -3411,6 +3439,8 @@ class Interp:
             if isinstance(v, Arr):
                 vals = [self.truth(x, n) for x in v.flat()]
                 return all(vals) if name == "all" else any(vals)
+            if isinstance(v, (Poly, Wrapped)):
+                return self.truth(v, n)
             raise self.unsupported("np.%s of %r" % (name, v), n)
         if name == "isclose" and ("rel_tol" in kw or "abs_tol" in kw):
             # math.isclose(a, b, rel_tol, abs_tol):  |a-b| <= max(rel_tol * max(|a|,|b|), abs_tol)
